@@ -109,4 +109,14 @@ ENTRIES = {
             "Shapes the statement does not define are excluded (two refinements in one block, next_rule inside a refinement or "
             "alternative block, an alternative written after a next_rule in the same block).",
             "DESIGN.md section 3 C08"),
+    "C12": ("exploration",
+            "exhaustive enumeration of call shapes (signature x positional/keyword split x argument sources) with a call log of harness-defined bodies",
+            "Every call shape - Predicate subclass, @symbolic_function function and method; arity 1-3 with 0-2 trailing defaults; "
+            "every number of given arguments, positional prefix length and keyword order; every assignment of {variable, attribute "
+            "of a variable, second variable, concrete value} to the arguments (4296 shapes) - is executed: all-concrete calls must run "
+            "once and return the plain result; symbolic calls must not run at construction, must be invoked once per candidate "
+            "binding with every parameter bound to the value written in its position, and the query must return exactly the domain "
+            "elements the concrete call accepts.",
+            "Domains of 4 and 2 elements; the body is a function of all parameters in which positions are not interchangeable.",
+            "DESIGN.md section 3 C12"),
 }
